@@ -29,7 +29,7 @@ def default_values(case):
 signature_matches = c01.signature_matches
 
 EDITS = ['none', 'replace-initial-condition', 'add-metric', 'add-lmi', 'switch-backend', 'primal-mode', 'trace-heuristic',
-         'failed-middle-solve', 'new-sample', 'inaccurate-second-solve', 'options-first-solve', 'change-parameter']
+         'failed-middle-solve', 'new-sample', 'inaccurate-second-solve', 'options-middle-solve', 'change-parameter']
 
 
 def apply_edit(env, m, edit, tagname=""):
@@ -86,11 +86,8 @@ def prog(env, case):
     pep = m.pep
     held = c02.held_objects(env, m, after=False)
     # ---- solve 1 ------------------------------------------------------------------------------------------
-    kw1 = {}
-    if edit == 'options-first-solve' and b1 == 'cvxpy':
-        kw1 = dict(solver='SCS', eps=1e-3, max_iters=50000)      # options of the first call only
-    t1, e1 = pipeline.safe_solve(env, pep, tag + ":solve1", wrapper=b1, verbose=2 if edit == 'options-first-solve' else 0,
-                                 **kw1)
+    t1, e1 = pipeline.safe_solve(env, pep, tag + ":solve1", wrapper=b1, verbose=0)
+    options_first = c12.solver_call_options(pep.wrapper, b1) if pep.wrapper is not None else None
     if e1:
         return e1
     n_sent1 = len(pep._list_of_constraints_sent_to_wrapper)
@@ -115,6 +112,9 @@ def prog(env, case):
             cstub.statuses = ('optimal_inaccurate',)
         else:
             kw.update(eps=1e-12, max_iters=3000)
+    elif edit == 'options-middle-solve':
+        # a solve in between passes solver options (accuracy, iteration limit, solver log): they belong to that call only
+        pep.solve(wrapper=b1, verbose=2, **(dict(solver='SCS', eps=1e-3, max_iters=50000) if b1 == 'cvxpy' else {}))
     elif edit == 'failed-middle-solve':
         if env.sym:
             for st in (cstub, mstub):
@@ -243,6 +243,11 @@ def prog(env, case):
               "equivalent model %d (one unused leaf - the previous objective - is left behind per solve)"
               % (2 + (edit == 'failed-middle-solve'), r_last['nF'], r_fresh['nF']),
               signature=tag.rsplit(":", 1)[0] + ":unknowns-grow")
+    if b2 == b1 and edit != 'inaccurate-second-solve':
+        env.check(r_last['struct'].get('solver_call_options') == options_first,
+                  "the last solve called the solver with options %s although it was called like the first solve, which used %s "
+                  "(options of an earlier solve were kept)" % (r_last['struct'].get('solver_call_options'), options_first),
+                  signature=tag + ":solver-options-kept")
     env.check(r_last['struct'].get('solver_call_options') == r_fresh['struct'].get('solver_call_options'),
               "the last solve called the solver with options %s, a freshly built equivalent model solved with the same call "
               "uses %s (options of an earlier solve were kept)" % (r_last['struct'].get('solver_call_options'),
@@ -314,7 +319,7 @@ def cases(tier):
                     continue
                 if edit == 'inaccurate-second-solve' and (be != 'cvxpy' or mname not in ('gd', 'lmi')):
                     continue
-                if edit == 'options-first-solve' and (be != 'cvxpy' or mname not in ('gd', 'lmi')):
+                if edit == 'options-middle-solve' and (be != 'cvxpy' or mname not in ('gd', 'lmi')):
                     continue
                 if edit == 'change-parameter' and mname not in ('gd', 'lmi'):
                     continue
